@@ -84,8 +84,12 @@ def run(repo: Repo) -> Result:
     copy_fn = repo.own_method(CTX, "copy")
 
     def check_node(cls_qual, methods, body_calls, want_disabled):
+        from ..normalize import nfunc
+
         for m in methods:
-            f = repo.own_method(cls_qual, m)
+            # private helpers of the node class (`_isolated_context`, `_macro_context`, ...) are
+            # inlined first: what matters is what reaches `copy`, not which method spells it
+            f = nfunc(repo, repo.own_method(cls_qual, m), keep=("_format_message",), aliases=False)
             vals = _local_values(f.node)
             targets = [c for c in calls(f.node) if callee_name(c) in body_calls]
             if not targets:
@@ -93,7 +97,7 @@ def run(repo: Repo) -> Result:
             for c in targets:
                 res.ob(f"{f.qual}:{text(c)[:50]}")
                 ctx_arg = c.args[0] if c.args else next((k.value for k in c.keywords if k.arg == "context"), None)
-                srcs = vals.get(ctx_arg.id, []) if isinstance(ctx_arg, ast.Name) else []
+                srcs = vals.get(ctx_arg.id, []) if isinstance(ctx_arg, ast.Name) else [unwrap_await(ctx_arg)] if isinstance(unwrap_await(ctx_arg), ast.Call) else []
                 copies = [s for s in srcs if isinstance(s, ast.Call) and callee_name(s) == "copy" and isinstance(s.func, ast.Attribute) and is_name(call_recv(s), "context")]
                 if not copies or len(copies) != len(srcs):
                     res.add("C15-COPY", f.qual, f"{callee_name(c)}:ctx={text(ctx_arg) if ctx_arg is not None else None}", f"{f.qual}: the body is rendered on `{text(ctx_arg) if ctx_arg is not None else None}`, which is not (only) the result of context.copy(...): caller variables are visible to it", f.file, c.lineno)
